@@ -21,7 +21,8 @@ EqHeaps ==
    H2b(T23, T23val, "csr_zeros", "dense", "ne:value"), H2b(T23, T23id, "dense", "csr", "ne:id"),
    H2b(T23, T23ord, "csr_unsorted", "dense", "ne:order"), H2b(T23, T23md, "dense", "csc", "ne:metadata"),
    H2b(T23, T23type, "dense", "dense", "ne:type"), H2b(T23, T23nomd, "csr_zeros", "dense", "ne:nomd"),
-   H2b(T23, T23zero, "csr_zeros", "csr_zeros", "ne:zero-vs-value")}
+   H2b(T23, T23zero, "csr_zeros", "csr_zeros", "ne:zero-vs-value"),
+   H2b(T23, T23idext, "dense", "dense", "ne:id-extended"), H2b(T23idext, T23, "dense", "csr", "ne:id-extended-rev")}
 
 H3(t, u, v, tag) == [heap |-> [a |-> Fresh(t), b |-> Fresh(u), c |-> Fresh(v)],
                      builds |-> [a |-> "dense", b |-> "csr_unsorted", c |-> "csc"], tag |-> tag, gmd |-> <<>>]
@@ -49,7 +50,11 @@ FileHeaps ==
    H1(F24frac, "csr_zeros", "F24frac"), H1(F22zero, "dense", "F22zero"), H1(F33part, "dense", "F33part"),
    HG(F33dense, "dense", "F33gmd", <<<<"observation", "phylogeny", "newick", "((o1,o2),o3);">>,
                                      <<"sample", "graph", "txt", "s1-s2; s2-s3">>>>),
-   HG(F23tax, "csc", "F23gmd", <<<<"observation", "tree", "newick", "(o1,o2);">>>>)}
+   HG(F23tax, "csc", "F23gmd", <<<<"observation", "tree", "newick", "(o1,o2);">>>>),
+   HG(F33dense, "csr", "F33gmd2", <<<<"observation", "phylogeny", "newick", "((o1,o2),o3);">>,
+                                     <<"observation", "second", "txt", "another entry">>,
+                                     <<"sample", "g1", "txt", "x">>, <<"sample", "g2", "txt", "y">>>>)}
+WideHeaps == {H1(W2x10, "dense", "W2x10"), H1(W2x10, "csc", "W2x10c")}
 JsonHeaps == FileHeaps \cup {H1(F23json, "dense", "F23json")}
 SumHeaps ==
   {H1(CT34, "dense", "CT34"), H1(CT34, "csr_zeros", "CT34z"), H1(CT23, "csr_unsorted", "CT23u"), H1(CT23, "csc", "CT23c"),
@@ -62,7 +67,7 @@ CtorHeaps ==
 ValHeaps ==
   {H1(F23num, "dense", "F23num"), H1(F23tax, "csr_unsorted", "F23tax"), H1(T23, "csr_zeros", "T23z"),
    H1(T33, "csc", "T33"), H1(F33dense, "dense", "F33dense"), H1(F13, "dense", "F13"), H1(F24frac, "coo", "F24frac")}
-HeapSets == [one |-> {H1(T22, "dense", "T22")}, pairs |-> MergeHeaps \cup ConcatHeaps \cup CountHeaps, val |-> ValHeaps, sum |-> SumHeaps, ctor |-> CtorHeaps, files |-> FileHeaps, json |-> JsonHeaps,std |-> MCInitHeaps, eq |-> EqHeaps, all |-> MCInitHeaps \cup EqHeaps, mrg |-> MergeHeaps,
+HeapSets == [wide |-> WideHeaps, one |-> {H1(T22, "dense", "T22")}, pairs |-> MergeHeaps \cup ConcatHeaps \cup CountHeaps, val |-> ValHeaps, sum |-> SumHeaps, ctor |-> CtorHeaps, files |-> FileHeaps, json |-> JsonHeaps,std |-> MCInitHeaps, eq |-> EqHeaps, all |-> MCInitHeaps \cup EqHeaps, mrg |-> MergeHeaps,
              cat |-> ConcatHeaps, cnt |-> CountHeaps, stdcnt |-> MCInitHeaps \cup CountHeaps]
 MCHeaps == HeapSets[IOEnv.GEN_HEAPS]
 
@@ -72,6 +77,6 @@ MCPhases == [i \in 1..Len(PhaseSpec) |->
                 pick |-> PhaseSpec[i].pick, salt |-> PhaseSpec[i].salt, recv |-> PhaseSpec[i].recv]]
 RankList == <<"g0", "g1", "gA", "gB", "gC", "g_nomd", "g_o1", "g_o2", "g_o3", "g_o4", "g_p", "g_q", "g_s1", "g_s2", "g_s3",
               "g_s4", "g_x", "g_y", "gc", "n1", "n2", "n3", "n4", "n5", "n6", "o1", "o2", "o3", "o4", "o5", "s1", "s2",
-              "s3", "s4", "zz">>
+              "s3", "s4", "s5", "s6", "s7", "s8", "s9", "t1", "zz">>
 MCNatRank == [x \in SeqSet(RankList) |-> CHOOSE k \in 1..Len(RankList) : RankList[k] = x]
 =============================================================================
